@@ -26,7 +26,9 @@ RULE = ('Hypothesis-generated file trees (<= 25 nodes, depth <= 4; names with bl
         'else reachable in any layer, conflict rules (all layers retrievable with nesting, replacement '
         'without, newest call visible), ValueError for a rule path that is a regular file - after which the '
         'offending file is removed and the SAME populator is used again on a fresh map (options of the rejected '
-        'call must not linger). Non-trivial = a '
+        'call must not linger). '
+        'In ~17% of the cases the last population call is repeated up to 33-261 times on the same map (odd sizes force nest_on_conflict), bounded by the size of the tree. '
+        'Non-trivial = a '
         'file at depth >= 2 under a rule with a non-empty extension filter, or a key conflict, or a rule '
         'pointing at a regular file. Distinct = sha1 of canonical JSON.')
 ASSUMPTIONS = [
